@@ -1088,6 +1088,10 @@ func (a *fnA) loopBounded(lp *loopInfo) (bool, string) {
 					}
 				}
 			}
+			// (c') counting down from a start that is not derived from the input to a bound that is not either
+			if t, ok := a.exitBoundDown(lp, phi); ok {
+				return true, fmt.Sprintf("%s strictly decreases from a start that is not derived from the input bytes and the loop exits when it reaches %s", a.describe(phi), t)
+			}
 		}
 	}
 	return false, "no loop variable is proved to make progress bounded by the input length: a short input may drive this loop for up to 2^63 iterations (or forever)"
@@ -1222,6 +1226,55 @@ func (a *fnA) exitBound(lp *loopInfo, phi *ssa.Phi) (string, bool) {
 			continue
 		}
 		return a.describe(large), true
+	}
+	return "", false
+}
+
+// exitBoundDown: phi strictly decreases; the loop stays while phi(+k) > T or
+// >= T with T loop-invariant and untainted, and phi's entry values are untainted.
+func (a *fnA) exitBoundDown(lp *loopInfo, phi *ssa.Phi) (string, bool) {
+	h := lp.header
+	pid := a.valTerm(phi)
+	for pi, pred := range h.Preds {
+		if !lp.body[pred] && a.taint[phi.Edges[pi]] {
+			return "", false
+		}
+	}
+	for bb := range lp.body {
+		iff, ok := bb.Instrs[len(bb.Instrs)-1].(*ssa.If)
+		if !ok || len(bb.Succs) != 2 || lp.body[bb.Succs[1]] || !lp.body[bb.Succs[0]] {
+			continue
+		}
+		cmp, ok := iff.Cond.(*ssa.BinOp)
+		if !ok {
+			continue
+		}
+		var small, large ssa.Value
+		switch cmp.Op {
+		case token.LSS, token.LEQ:
+			small, large = cmp.X, cmp.Y
+		case token.GTR, token.GEQ:
+			small, large = cmp.Y, cmp.X
+		default:
+			continue
+		}
+		ll := a.lin(large)
+		if ll.C[pid] != 1 || len(ll.C) != 1 || a.taint[small] {
+			continue
+		}
+		invariant := true
+		for t := range a.lin(small).C {
+			if t == pid {
+				invariant = false
+			} else if v := a.terms[t].v; v != nil {
+				if in, isInstr := v.(ssa.Instruction); isInstr && lp.body[in.Block()] {
+					invariant = false
+				}
+			}
+		}
+		if invariant {
+			return a.describe(small), true
+		}
 	}
 	return "", false
 }
